@@ -19,23 +19,29 @@ def _one_step_batch(starts):
 
 
 def _chain(job):
-    """chain of bumps through the CLI (`bumpver test <b> <pattern>`): incr_dispatch + gate + output"""
-    start, steps, pattern, prefix = job
+    """chain of bumps through the CLI (`bumpver test <version> <pattern> [flags]`): incr_dispatch + gate + output.  BUILD is the last part of the
+    pattern; whatever stands before it (other parts, bumped by the flags of the step) is carried along as the prefix"""
+    import re
+    start, steps, pattern, prefix = job[:4]
+    flagsets = job[4] if len(job) > 4 else [[]]
+    rng = random.Random(job[5] if len(job) > 5 else 0)
     evs = []
     b = start
     gen = False
     for _ in range(steps):
-        r = drive.cli(["test", prefix + b, pattern, "--date", "2021-01-01"])
+        flags = rng.choice(flagsets)
+        r = drive.cli(["test", prefix + b, pattern, "--date", "2021-01-01"] + flags)
         if r.exit != 0:
             # refusal: only legitimate at the documented maximum
-            evs.append((b, [0, 0], gen, "exit=%s %s" % (r.exit, r.exc)))
+            evs.append((b, [0, 0], gen, "exit=%s %s %s" % (r.exit, r.exc, " ".join(flags))))
             break
         new = r.new_version()
-        if new is None or not new.startswith(prefix):
+        m = re.match(r"^(.*[^0-9])?([0-9]+)$", new or "")
+        if not m:
             evs.append((b, [0], gen, "no output"))
             break
-        n = new[len(prefix):]
-        evs.append((b, glue.cp(n), gen, ""))
+        prefix, n = m.group(1) or "", m.group(2)
+        evs.append((b, glue.cp(n), gen, " ".join(flags)))
         b = n
         gen = True
     return evs
@@ -83,9 +89,12 @@ def run(ctx):
         w = rng.randrange(1, 8)
         chain_starts.append("".join(rng.choice("0123456789") for _ in range(w)))
     jobs = []
+    # BUILD alone, behind a calendar part, and behind parts that the flags of a step move (every bump must still give a new, greater BUILD)
+    moving = [[], [], ["--patch"], ["--minor"], ["--patch", "--pin-increments"], ["--pin-increments"], ["--major", "--pin-increments"]]
     for i, s in enumerate(chain_starts[:n_chains]):
-        pat, pre = [("BUILD", ""), ("vYYYY.BUILD", "v2021."), ("BUILD", "")][i % 3]
-        jobs.append((s, steps, pat, pre))
+        pat, pre, fl = [("BUILD", "", [[]]), ("vYYYY.BUILD", "v2021.", [[], ["--pin-increments"]]), ("MAJOR.MINOR.PATCH+BUILD", "1.0.2+", moving), ("BUILD", "", [[]]),
+                        ("vMAJOR.MINOR.INC0.BUILD", "v1.9.7.", [f for f in moving if "--patch" not in f])][i % 5]
+        jobs.append((s, steps, pat, pre, fl, ctx.seed * 1009 + i))
     n_chain_ev = 0
     for job, evs in zip(jobs, drive.pmap(_chain, jobs, hooks=False)):
         for b, n, gen, note in evs:
@@ -112,7 +121,7 @@ def run(ctx):
         ctx.violation(dict(clause=f["clause"], width=len(b), padded=b.startswith("0") and len(b) > 1),
                       case=dict(start=b, pattern="BUILD", generated=e["generated"], note=e["dbg"]),
                       expected=f["detail"], observed=n)
-    ctx.rule = ("one bump from every digit string of length 1..%d (library) plus %d CLI chains of up to %d bumps; "
+    ctx.rule = ("one bump from every digit string of length 1..%d (library) plus %d CLI chains of up to %d bumps (BUILD alone, behind a calendar part, behind MAJOR/MINOR/PATCH/INC0 moved by --patch/--minor/--major/--pin-increments); "
                 "distinct = distinct BUILD values bumped; every one is non-trivial (each exercises the successor)" % (K, len(jobs), steps))
     ctx.exhaustive = False
     ctx.sample(dict(start="0999", next=glue.uncp(by_id[starts.index("0999") + 1]["n"])))
